@@ -75,7 +75,7 @@ func (c14) Build(tier string, seed uint64) []any {
 	}
 	per := 8
 	if th {
-		per = 80
+		per = 300
 	}
 	sizes := []int{1, 2, 3, 4, 5, 7, 8, 9, 15, 16, 17, 31, 32, 33, 64, 65}
 	i := 0
